@@ -113,3 +113,11 @@ pub trait VPartialOrd<Rhs>: Sized {
     fn partial_cmp(&self, other: &Rhs) -> (r: Option<core::cmp::Ordering>)
         requires self.v_ord_req(other);
 }
+
+// R12: std's blanket `impl<T, U: Into<T>> TryFrom<U> for T` (infallible conversion seen as a fallible one), mirrored
+impl<T, U: VFrom<T>> VTryFrom<T> for U {
+    type Error = core::convert::Infallible;
+    open spec fn v_try_from_req(value: T) -> bool { U::v_from_req(value) }
+    open spec fn v_try_from_post(value: T, r: Result<U, core::convert::Infallible>) -> bool { r is Ok && U::v_from_post(value, r->Ok_0) }
+    fn v_try_from(value: T) -> (r: Result<U, core::convert::Infallible>) { Ok(U::v_from(value)) }
+}
